@@ -590,3 +590,169 @@ Print Assumptions C05_submodel_partly_outside_before_later.
 Print Assumptions C05_flag_parity_desync_refuted.
 Print Assumptions C05_flag_parity_desync_failed_step_refuted.
 Print Assumptions C05_submodel_straddling_first_step_refuted.
+
+
+(* ==================================================================================================================
+   Tie (T) for the feedback machinery (added to the correspondence tie (H) of the low-level models above).
+   gen/Gen_feedback.v is regenerated on every run by tools/vlib/py2coq_fb.py (built on py2coq_state.py) from the CURRENT text of
+   Node.state_proxy / set_state_proxy / with_feedback (reservoirpy/node.py), Model._load_proxys / _clean_proxys / with_feedback
+   (reservoirpy/model.py) and DistantFeedback.clamp / call_distant_node (reservoirpy/_base.py), over the vocabulary of base/CtxPrelude.v
+   (a computation is heap -> heap * outcome A; try/finally; a @contextmanager generator is a function of the body of the `with`
+   statement; ExitStack) and base/FbPrelude.v (`_state_proxy` and the clamp of the DistantFeedback a receiver owns live in the node
+   object; has_fb / fb_kind are the immutable part of a DistantFeedback).  proofs/Gen_feedback_eq.v proves what the generated functions do
+   for EVERY body and both of its outcomes, and that this is state_proxy / load_proxys / clean_proxys / fb_read / with_feedback_ll of
+   model/ProxySem.v and cdn of model/SubSender.v, the functions the mechanism theorems above are stated about. *)
+From RV Require Import base.CtxPrelude base.FbPrelude gen.Gen_feedback proofs.Gen_feedback_eq.
+
+(* the generated Node.with_feedback is the context manager of an explicit (enter, exit) pair: a receiver clamps the given value on its
+   DistantFeedback and lowers the flag in the `finally`; any other node freezes the value (given | zero if reset | the proxy it holds)
+   in `_state_proxy` and gets the old proxy back in the `finally` unless stateful *)
+Theorem C05_generated_with_feedback_is_enter_exit {F : Type} `{Num F} {P A : Type} check_ok check_n_ok has_fb zero_feedback
+        n feedback stateful reset (body : M (@heap F (@fbx F P)) A) (h : @heap F (@fbx F P)) :
+  GenFb.Node_with_feedback check_ok check_n_ok has_fb zero_feedback n feedback stateful reset body h =
+    with_cm (wf_enter check_ok check_n_ok has_fb zero_feedback n feedback reset) (wf_exit has_fb n stateful) body h.
+Proof. exact (gen_with_feedback_is_cm check_ok check_n_ok has_fb zero_feedback n feedback stateful reset body h). Qed.
+Print Assumptions C05_generated_with_feedback_is_enter_exit.
+
+(* stateful=False on a node that receives no feedback: `_state_proxy` after the `with` block is `_state_proxy` before it -- for every body,
+   whether it returned or raised, whatever value was given, accepted by set_state_proxy or not.  A receiver is never left clamped: the
+   flag is down after the block, for every body and both outcomes.  (Both come out of the translated try/finally clauses.) *)
+Theorem C05_generated_with_feedback_restores_proxy {F : Type} `{Num F} {P A : Type} check_ok check_n_ok has_fb zero_feedback
+        n feedback reset (body : M (@heap F (@fbx F P)) A) (h h' : @heap F (@fbx F P)) r :
+  has_fb n = false ->
+  GenFb.Node_with_feedback check_ok check_n_ok has_fb zero_feedback n feedback false reset body h = (h', r) ->
+  a_state_proxy (h' n) = a_state_proxy (h n).
+Proof. exact (gen_with_feedback_restores_proxy check_ok check_n_ok has_fb zero_feedback n feedback reset body h h' r). Qed.
+Theorem C05_generated_with_feedback_unclamps {F : Type} `{Num F} {P A : Type} check_ok check_n_ok has_fb zero_feedback
+        n v stateful (body : M (@heap F (@fbx F P)) A) (h h' : @heap F (@fbx F P)) r :
+  has_fb n = true -> check_n_ok n v = true ->
+  GenFb.Node_with_feedback check_ok check_n_ok has_fb zero_feedback n (Some v) stateful false body h = (h', r) ->
+  a_clamped (h' n) = false.
+Proof. exact (gen_with_feedback_unclamps check_ok check_n_ok has_fb zero_feedback n v stateful body h h' r). Qed.
+
+(* Node.state_proxy: `_state_proxy`, falling back to the raw `_state` when it is None = ProxySem.state_proxy; nothing is written.
+   set_state_proxy(None) is a no-op; set_state_proxy(v) freezes v on an initialised node when check_one_sequence accepts v and otherwise
+   raises with nothing written.  DistantFeedback.clamp likewise with check_n_sequences. *)
+Theorem C05_generated_state_proxy_is_model {F : Type} (h : @heap F (@fbx F (@hidden F))) n :
+  GenFb.Node_state_proxy n h = (h, Ok (proxy_or_state (h n))) /\ ov (proxy_or_state (h n)) = state_proxy (labs h) n.
+Proof. exact (gen_state_proxy_is_model h n). Qed.
+Theorem C05_generated_set_state_proxy {F P : Type} check_ok (h : @heap F (@fbx F P)) n value :
+  GenFb.Node_set_state_proxy check_ok n value h =
+    match value with
+    | None => (h, Ok tt)
+    | Some v => if a_is_initialized (h n)
+                then if check_ok (a_output_dim (h n)) v then (hupd h n (with_proxy_o (h n) (Some v)), Ok tt) else (h, Exc CheckError)
+                else (h, Exc RuntimeError)
+    end.
+Proof. exact (gen_set_state_proxy check_ok h n value). Qed.
+Theorem C05_generated_clamp {F P : Type} check_n_ok (h : @heap F (@fbx F P)) n v :
+  GenFb.DistantFeedback_clamp check_n_ok n v h = if check_n_ok n v then (clamp_heap h n v, Ok tt) else (h, Exc CheckError).
+Proof. exact (gen_clamp check_n_ok h n v). Qed.
+
+(* Model._load_proxys(keep) = ProxySem.load_proxys on initialised nodes ([rel h e]: the heap of node objects stands, point-wise, for the
+   ProxySem environment e; [node_ok]: `_is_initialized`, `_state` an array); Model._clean_proxys = ProxySem.clean_proxys, no hypothesis *)
+Theorem C05_generated_load_proxys_is_model {F : Type} (m : @model F) keep (h : @heap F (@fbx F (@hidden F))) (e : @lenv F) :
+  rel h e -> (forall d, In d (ModelSem.order m) -> node_ok (h (nid d))) ->
+  let '(h', r) := GenFb.Model_load_proxys (ids_of m) keep h in r = Ok tt /\ rel h' (load_proxys m keep e).
+Proof. exact (gen_load_proxys_is_model m keep h e). Qed.
+Theorem C05_generated_clean_proxys_is_model {F : Type} (m : @model F) (h : @heap F (@fbx F (@hidden F))) (e : @lenv F) :
+  rel h e -> let '(h', r) := GenFb.Model_clean_proxys (ids_of m) h in r = Ok tt /\ rel h' (clean_proxys m e).
+Proof. exact (gen_clean_proxys_is_model m h e). Qed.
+
+(* DistantFeedback.call_distant_node = ProxySem.fb_read: a pending clamp is handed out ONCE (the read lowers the flag); else a Node
+   sender's state_proxy(); else -- a Model sender whose nodes' `_fb_flag`s all agree ([in_sync_h]) -- the state_proxy()s of its output
+   nodes (one array, or the list when there are several: [fbv_flat] concatenates as ProxySem does).  [kind_ok]: has_fb / fb_kind describe
+   the DistantFeedback of ProxySem's node d; [clamp_wf]: a raised `_clamped` flag has a value. *)
+Theorem C05_generated_call_distant_node_is_fb_read {F ID IX : Type} has_fb fb_kind dmi item rmc rnc
+        (d : @ndesc F) src (h : @heap F (@fbx F (@hidden F))) (e : @lenv F) :
+  rel h e -> nfb d = Some src -> kind_ok has_fb fb_kind d -> clamp_wf (h (nid d)) -> in_sync_h fb_kind d h ->
+  let '(h', r) := @GenFb.DistantFeedback_call_distant_node F (@hidden F) ID IX fb_kind dmi item rmc rnc (nid d) h in
+  let '(v, _) := fb_read d (labs h) in
+  (exists fv, r = Ok fv /\ v = Some (fbv_flat fv)) /\ rel h' (snd (fb_read d e)) /\ fst (fb_read d e) = v.
+Proof. exact (gen_cdn_is_fb_read has_fb fb_kind dmi item rmc rnc d src h e). Qed.
+
+(* THE LOW-LEVEL TIMING THEOREM TRANSFERRED TO THE TRANSLATED CODE (C05_lowlevel_read_frozen above): on ANY heap of node objects that
+   stands for the environment ProxySem reaches after a prefix [pre] of the execution order has run in the current step -- the sender
+   possibly among them, its `_state` already overwritten --, the generated call_distant_node of an unclamped receiver returns the value
+   the sender's proxy held when the step began (its `_state` of then, when it had no proxy and has not run yet), and writes nothing. *)
+Theorem C05_generated_read_frozen {F ID IX : Type} fb_kind dmi item rmc rnc
+        (m : @model F) ext pre (d : @ndesc F) s (elin elmid : @lenv F) ok v (h : @heap F (@fbx F (@hidden F))) :
+  nfb d = Some (FbNode s) -> fb_kind (nid d) = DNode s -> clamp (elin (nid d)) = None ->
+  (proxy (elin s) = Some v \/ (proxy (elin s) = None /\ lst (elin s) = v /\ ~ In s (map nid pre))) ->
+  forward_from_ll m ext pre elin = (elmid, ok) ->
+  rel h elmid -> clamp_wf (h (nid d)) ->
+  exists o, @GenFb.DistantFeedback_call_distant_node F (@hidden F) ID IX fb_kind dmi item rmc rnc (nid d) h = (h, Ok (FbArr o)) /\ ov o = v.
+Proof. exact (gen_cdn_read_frozen fb_kind dmi item rmc rnc m ext pre d s elin elmid ok v h). Qed.
+
+(* Model.with_feedback(mapping, stateful) = ProxySem.with_feedback_ll for EVERY pair of corresponding bodies ([body_sim]) and both
+   outcomes of the body: the value is looked up under the node's own name, then -- for a receiver -- under its sender's name
+   (ModelSem.forced_value); receivers are clamped, the other nodes get a temporary proxy; the contexts are entered in self.nodes order and
+   left in reverse order ALSO WHEN THE BODY RAISED, the clamp flag lowered and the old proxy put back (unless stateful) by the `finally`
+   clauses.  [fkind_ok]: has_fb / fb_kind describe the nodes and nothing is forced under the name of a sub-model sender (ProxySem has no
+   such name); [acc]: the arrays the entry hands to check_n_sequences / check_one_sequence are accepted.  Model.with_feedback(None): the
+   body alone. *)
+Theorem C05_generated_model_with_feedback_is_model {F : Type} `{Num F} {A : Type} check_ok check_n_ok has_fb fb_kind zero_feedback
+        (m : @model F) forced stateful (body : M (@heap F (@fbx F (@hidden F))) A) bodyl (h : @heap F (@fbx F (@hidden F))) (e : @lenv F) :
+  body_sim body bodyl -> rel h e ->
+  (forall d, In d (ModelSem.order m) -> fkind_ok has_fb fb_kind forced d /\ acc check_ok check_n_ok forced h d) ->
+  let '(h', r) := GenFb.Model_with_feedback check_ok check_n_ok has_fb fb_kind zero_feedback (ids_of m) (Some forced) stateful false body h in
+  let '(e', ok) := with_feedback_ll forced stateful (ModelSem.order m) bodyl e in
+  rel h' e' /\ is_ok r = ok.
+Proof. exact (gen_model_with_feedback_is_model check_ok check_n_ok has_fb fb_kind zero_feedback m forced stateful body bodyl h e). Qed.
+Theorem C05_generated_model_with_feedback_none {F : Type} `{Num F} {A : Type} check_ok check_n_ok has_fb fb_kind zero_feedback
+        nodes stateful (body : M (@heap F (@fbx F (@hidden F))) A) (h : @heap F (@fbx F (@hidden F))) :
+  GenFb.Model_with_feedback check_ok check_n_ok has_fb fb_kind zero_feedback nodes None stateful false body h = body h.
+Proof. exact (gen_model_with_feedback_none check_ok check_n_ok has_fb fb_kind zero_feedback nodes stateful body h). Qed.
+
+(* DistantFeedback.call_distant_node with a MODEL as sender = SubSender.cdn (the mechanism the C05_submodel_* theorems and the three
+   flag-parity findings are stated about): clamp consumed once; `len(np.unique(flags)) > 1` is "not all `_fb_flag`s equal"; in sync the
+   output nodes' frozen proxies and nothing written; out of sync the reduced sender is re-run -- `_distant_model_inputs` and the reduced
+   sender's call are not translated: [red_sim] assumes that the section functions standing for them do what SubSender.run_reduced does.
+   [srel]: the heap stands for the SubSender state (ProxySem's part and the flags). *)
+Theorem C05_generated_call_distant_node_is_subsender_cdn {F ID IX : Type} fb_kind dmi item rmc rnc
+        (smf : nat -> option (@subm F)) (d : @ndesc F) (sd : @subm F) (sm : smodel) (h : @heap F (@fbx F (@hidden F))) (s : @sstate F) :
+  srel h s -> smf (nid d) = Some sd -> fb_kind (nid d) = DModel sm ->
+  sm_nodes sm = s_nodes sd -> sm_outputs sm = s_outs sd -> s_outs sd <> [] ->
+  clamp_wf (h (nid d)) -> red_sim dmi item rmc rnc sm sd ->
+  let '(h', r) := @GenFb.DistantFeedback_call_distant_node F (@hidden F) ID IX fb_kind dmi item rmc rnc (nid d) h in
+  let '(v, s1, ok) := cdn smf d s in
+  srel h' s1 /\ match r with Ok fv => ok = true /\ v = Some (fbv_flat fv) | Exc _ => ok = false end.
+Proof. exact (gen_cdn_is_subsender_cdn fb_kind dmi item rmc rnc smf d sd sm h s). Qed.
+
+(* non-vacuity (the generated code, executed at Q): sender 0 with state 7, receiver 1 with feedback from node 0.
+   (a) _load_proxys(keep=True) freezes 7; the sender's `_state` is then overwritten with 8; the receiver still reads 7.
+   (b) 5 forced under the SENDER's name: the receiver is clamped with it through its sender's name and node 0 gets it as a temporary
+       proxy -- first read: the clamp, second read: the temporary proxy --; after the block no clamp and no proxy are left.
+   (c) the same when the body raises after the first read. *)
+Definition exG5_has_fb (n : nat) : bool := Nat.eqb n 1.
+Definition exG5_kind (n : nat) : dfb_kind := DNode 0.
+Definition exG5_heap : @heap Q (@fbx Q unit) :=
+  fun n => mkObj (Some [match n with 0%nat => 7%Q | _ => 3%Q end]) true (Some 1%nat) true (mkFbx None false None tt).
+Definition exG5_cdn : nat -> M (@heap Q (@fbx Q unit)) (@fbval Q) :=
+  @GenFb.DistantFeedback_call_distant_node Q unit unit unit exG5_kind (fun _ => ret tt) (fun _ _ => tt)
+    (fun _ _ => ret (FbArr None)) (fun _ _ => ret (FbArr None)).
+Definition exG5_with {A : Type} (body : M (@heap Q (@fbx Q unit)) A) :=
+  GenFb.Model_with_feedback (fun _ _ => true) (fun _ _ => true) exG5_has_fb exG5_kind (fun _ => ret None) [0%nat; 1%nat]
+    (Some (fun n => match n with 0%nat => Some [5%Q] | _ => None end)) false false body exG5_heap.
+Example C05_generated_example :
+  (let '(h1, _) := GenFb.Model_load_proxys [0%nat; 1%nat] true exG5_heap in
+   let '(h2, _) := wr_state 0%nat (Some [8%Q]) h1 in
+   snd (exG5_cdn 1%nat h2)) = Ok (FbArr (Some [7%Q])) /\
+  (let '(h1, r) := exG5_with (bind (exG5_cdn 1%nat) (fun a => bind (exG5_cdn 1%nat) (fun b => ret (a, b)))) in
+   (r, a_clamped (h1 1%nat), a_state_proxy (h1 0%nat))) = (Ok (FbArr (Some [5%Q]), FbArr (Some [5%Q])), false, None) /\
+  (let '(h1, r) := exG5_with (bind (exG5_cdn 1%nat) (fun a => @raise _ unit ForwardError)) in
+   (r, a_clamped (h1 1%nat), a_state_proxy (h1 0%nat))) = (Exc ForwardError, false, None).
+Proof. vm_compute. repeat split; reflexivity. Qed.
+
+Print Assumptions C05_generated_with_feedback_restores_proxy.
+Print Assumptions C05_generated_with_feedback_unclamps.
+Print Assumptions C05_generated_state_proxy_is_model.
+Print Assumptions C05_generated_set_state_proxy.
+Print Assumptions C05_generated_clamp.
+Print Assumptions C05_generated_load_proxys_is_model.
+Print Assumptions C05_generated_clean_proxys_is_model.
+Print Assumptions C05_generated_call_distant_node_is_fb_read.
+Print Assumptions C05_generated_read_frozen.
+Print Assumptions C05_generated_model_with_feedback_is_model.
+Print Assumptions C05_generated_model_with_feedback_none.
+Print Assumptions C05_generated_call_distant_node_is_subsender_cdn.
